@@ -730,3 +730,18 @@ func Forward(v ssa.Value) ssa.Value {
 	}
 	return v
 }
+
+// ReturnValues returns the returned values with defer-spilled result cells
+// resolved by store-to-load forwarding.
+func ReturnValues(ret *ssa.Return) []ssa.Value {
+	out := make([]ssa.Value, len(ret.Results))
+	for i, v := range ret.Results {
+		out[i] = Forward(v)
+	}
+	return out
+}
+
+// IsRecoverBlock reports the synthetic block that runs after a recovered panic.
+func IsRecoverBlock(b *ssa.BasicBlock) bool {
+	return b.Parent().Recover == b
+}
